@@ -12,6 +12,7 @@ import (
 
 	"github.com/nalgeon/redka"
 	"github.com/nalgeon/redka/internal/core"
+	"github.com/nalgeon/redka/internal/redis"
 )
 
 // scanMain (subcommand `scan`) builds collections through many insertion / deletion histories
@@ -27,9 +28,10 @@ func scanMain() {
 	defer out.Flush()
 	rnd := rand.New(rand.NewSource(*seed))
 	fams := []string{"set", "hash", "zset", "key"}
-	orders := []string{"asc", "desc", "random", "churn", "rename", "store"}
+	orders := []string{"asc", "desc", "random", "churn", "rename", "store", "overwrite"}
 	for t := 0; t < *traces; t++ {
 		db := openDB()
+		scanHistory = nil
 		fam := fams[t%len(fams)]
 		order := orders[(t/len(fams))%len(orders)]
 		n := rnd.Intn(*maxN + 1)
@@ -58,28 +60,42 @@ func scanMain() {
 
 func elemName(i int) string { return fmt.Sprintf("e%02d", i) }
 
+// scanHistory: the operations that built the collection, `<now> <op text>` each, so that the Lean
+// judge can run the model from an empty database and decide the D10 classifier on the rowids the
+// model of the code assigns (a change in rowid assignment is then a failing input, not a D10 case).
+var scanHistory []string
+
+func build(db *redka.DB, st step) {
+	waitFreshMs()
+	e := &env{r: redis.RedkaDB(db), db: db}
+	st.run(e, ident)
+	t1 := nowMs()
+	lastT1 = t1
+	scanHistory = append(scanHistory, fmt.Sprintf("%d %s", t1, st.text))
+}
+
 func addOne(db *redka.DB, fam, key string, i int, rnd *rand.Rand) {
 	name := elemName(i)
 	switch fam {
 	case "set":
-		db.Set().Add(key, name)
+		build(db, opSetAdd(key, []string{name}, true))
 	case "hash":
-		db.Hash().Set(key, name, fmt.Sprintf("v%d", i))
+		build(db, opHashSet(key, name, fmt.Sprintf("v%d", i), true))
 	case "zset":
 		// scores sometimes follow, sometimes oppose, sometimes ignore the insertion order
-		db.ZSet().Add(key, name, float64(rnd.Intn(5)))
+		build(db, opZAdd(key, name, float64(rnd.Intn(5))))
 	case "key":
 		switch i % 5 {
 		case 0:
-			db.Str().Set(name, "v")
+			build(db, opStrSet(name, "v", true))
 		case 1:
-			db.List().PushBack(name, "x")
+			build(db, opListPush(name, "x", false, true))
 		case 2:
-			db.Set().Add(name, "x")
+			build(db, opSetAdd(name, []string{"x"}, true))
 		case 3:
-			db.Hash().Set(name, "f", "x")
+			build(db, opHashSet(name, "f", "x", true))
 		default:
-			db.ZSet().Add(name, "x", 1)
+			build(db, opZAdd(name, "x", 1))
 		}
 	}
 }
@@ -88,13 +104,13 @@ func delOne(db *redka.DB, fam, key string, i int) {
 	name := elemName(i)
 	switch fam {
 	case "set":
-		db.Set().Delete(key, name)
+		build(db, opSetDelete(key, []string{name}))
 	case "hash":
-		db.Hash().Delete(key, name)
+		build(db, opHashDelete(key, []string{name}))
 	case "zset":
-		db.ZSet().Delete(key, name)
+		build(db, opZDelete(key, []string{name}))
 	case "key":
-		db.Key().Delete(name)
+		build(db, opKeyDelete([]string{name}))
 	}
 }
 
@@ -110,13 +126,20 @@ func buildCollection(db *redka.DB, rnd *rand.Rand, fam, order string, n int) str
 		for i, j := 0, n-1; i < j; i, j = i+1, j-1 {
 			idx[i], idx[j] = idx[j], idx[i]
 		}
-	case "random", "churn", "rename", "store":
+	case "random", "churn", "rename", "store", "overwrite":
 		rnd.Shuffle(n, func(i, j int) { idx[i], idx[j] = idx[j], idx[i] })
 	}
 	for _, i := range idx {
 		addOne(db, fam, key, i, rnd)
 	}
 	switch order {
+	case "overwrite":
+		// write about a third of the elements again (same name, new value / score): the element keeps its place
+		for _, i := range idx {
+			if rnd.Intn(3) == 0 {
+				addOne(db, fam, key, i, rnd)
+			}
+		}
 	case "churn":
 		// delete about a third and re-insert half of those
 		for _, i := range idx {
@@ -129,20 +152,20 @@ func buildCollection(db *redka.DB, rnd *rand.Rand, fam, order string, n int) str
 		}
 	case "rename":
 		if fam != "key" {
-			db.Key().Rename(key, "moved")
+			build(db, opKeyRename(key, "moved"))
 			key = "moved"
 		} else if n > 0 {
-			db.Key().Rename(elemName(idx[0]), "e99")
+			build(db, opKeyRename(elemName(idx[0]), "e99"))
 		}
 	case "store":
 		switch fam {
 		case "set":
-			db.Set().Add("other", "e97", "e03")
-			db.Set().UnionStore("dest", key, "other")
+			build(db, opSetAdd("other", []string{"e97", "e03"}, true))
+			build(db, opSetUnionStore("dest", []string{key, "other"}))
 			key = "dest"
 		case "zset":
-			db.ZSet().Add("other", "e97", 2)
-			db.ZSet().UnionWith(key, "other").Dest("dest").Store()
+			build(db, opZAdd("other", "e97", 2))
+			build(db, opZUnionStore("dest", []string{key, "other"}, 0))
 			key = "dest"
 		}
 	}
@@ -235,6 +258,14 @@ func drain(db *redka.DB, fam, key, pat string, ty, pageSize int) {
 	lst := func(xs []string) string {
 		return fmt.Sprintf("L %d %s", len(xs), strings.Join(xs, " "))
 	}
-	fmt.Fprintf(out, "SCAN %d %d | %s | %s %s %s %d %d | %s | %s\n", seq, t1, pre.render(ident),
-		fam, hxs(key), hxs(pat), ty, pageSize, strings.TrimSpace(lst(loop)), strings.TrimSpace(lst(iter)))
+	fmt.Fprintf(out, "SCAN %d %d | %s | %s %s %s %d %d | %s | %s | %s\n", seq, t1, pre.render(ident),
+		fam, hxs(key), hxs(pat), ty, pageSize, strings.TrimSpace(lst(loop)), strings.TrimSpace(lst(iter)),
+		histOrDash(strings.Join(scanHistory, " ;; ")))
+}
+
+func histOrDash(h string) string {
+	if h == "" {
+		return "-"
+	}
+	return h
 }
